@@ -1,6 +1,6 @@
 (* C04 - what every call means in terms of ONE function full-key -> option value (abs), for every view
    (any realm) behind every wrapper stack; closed store; reachability. *)
-From Coq Require Import NArith List Bool Lia Sorting.Sorted Sorting.Permutation.
+From Coq Require Import PeanoNat NArith List Bool Lia Sorting.Sorted Sorting.Permutation.
 From Verif.C04_KV Require Import Model Lemmas Proofs.
 Import ListNotations.
 Open Scope N_scope.
@@ -340,3 +340,96 @@ Qed.
 (* the specification's map is an ordered map: strictly ascending full keys, in every reachable state *)
 Theorem spec_map_sorted : forall h, SS bleb (s_map (fst (srun sinit h))).
 Proof. intro h. destruct (run_refines h init sinit R_init) as [HR _]. apply (R_sorted _ _ HR). Qed.
+
+(* ====================================================================================================
+   Re-entrant consumers (histories over `hop`, executed by `hrun`)
+   ==================================================================================================== *)
+Theorem hreachable_inv : forall h, Inv (w_st (fst (hrun init h))).
+Proof. intro h. destruct (hrun_refines h init sinit R_init) as [HR _]. apply (R_nodup _ _ HR). Qed.
+
+Theorem hrefines : forall h,
+  snd (hrun init h) = snd (shrun sinit h) /\
+  log (w_st (fst (hrun init h))) = s_log (fst (shrun sinit h)) /\
+  (forall k, abs (w_st (fst (hrun init h))) k = lookup k (s_map (fst (shrun sinit h)))) /\
+  closed (w_st (fst (hrun init h))) = s_closed (fst (shrun sinit h)).
+Proof.
+  intro h. destruct (hrun_refines h init sinit R_init) as [HR HO].
+  repeat split; auto. apply (R_log _ _ HR). apply (R_lookup _ _ HR). apply (R_closed _ _ HR).
+Qed.
+
+Theorem hspec_map_sorted : forall h, SS bleb (s_map (fst (shrun sinit h))).
+Proof. intro h. destruct (hrun_refines h init sinit R_init) as [HR _]. apply (R_sorted _ _ HR). Qed.
+
+Lemma hstep_closed_frozen : forall w o, closed (w_st w) = true ->
+  m (w_st (fst (hstep w o))) = m (w_st w) /\ closed (w_st (fst (hstep w o))) = true.
+Proof.
+  intros w o C. destruct o as [o|v ko p d lim script]; cbn [hstep].
+  - destruct (step_closed_frozen w o C) as [A B]. destruct (step w o) as [w1 x]. cbn [fst] in *. auto.
+  - destruct (step_closed_frozen w (OpKV v (iter_op ko p d lim)) C) as [A B].
+    destruct (step w (OpKV v (iter_op ko p d lim))) as [w1 x]. cbn [fst] in *.
+    destruct (closed_state_frozen (consumer_ops (ndeliv x) script) w1 B) as [A2 B2].
+    destruct (run w1 (consumer_ops (ndeliv x) script)) as [w2 xs]. cbn [fst] in *. split; congruence.
+Qed.
+
+Theorem hclosed_state_frozen : forall h w, closed (w_st w) = true ->
+  m (w_st (fst (hrun w h))) = m (w_st w) /\ closed (w_st (fst (hrun w h))) = true.
+Proof.
+  induction h as [|o h IH]; intros w C; cbn [hrun].
+  - auto.
+  - destruct (hstep_closed_frozen w o C) as [A B]. destruct (hstep w o) as [w1 x]. cbn [fst] in *.
+    destruct (IH w1 B) as [A2 B2]. destruct (hrun w1 h) as [w2 xs]. cbn [fst] in *. split; congruence.
+Qed.
+
+(* what was delivered by an iteration that returned r *)
+Definition delivered (ko : bool) (snap : kvmap) : out := if ko then OKeys (map fst snap) else OKVs snap.
+
+(* the world right after the snapshot was taken: only the debug wrappers of the stack have logged the call *)
+Definition after_snapshot (w : world) (vw : view) (o : kvop) : world :=
+  let s := w_st w in
+  mkW (mkSt (m s) (closed s) (rev (log_of (v_stack vw) o) ++ log s) (nfl s)) (w_views w) (w_batches w).
+
+(* Iterate / IterateKeys with a consumer that calls back into the store (any script of history operations per
+   callback, through any view / wrapper / batch): the delivered list is the iteration of the state AT CALL TIME
+   (whatever the script does), the consumer was called once per delivered entry, and the world afterwards is the
+   fold of the consumer's operations, in order, over the state at call time. *)
+Theorem iterate_snapshot_reentrant : forall w v vw ko p d lim script,
+  nth_error (w_views w) v = Some vw -> closed (w_st w) = false -> d <> DBad ->
+  let snap := firstn (Nat.max 1 lim) (iterate (v_realm vw) p d (m (w_st w))) in
+  let ops := consumer_ops (length snap) script in
+  let w0 := after_snapshot w vw (iter_op ko p d lim) in
+  hstep w (HIterRe v ko p d lim script) = (fst (run w0 ops), delivered ko snap :: snd (run w0 ops)).
+Proof.
+  intros [s vs bs] v vw ko p d lim script E C D. cbn [w_st w_views w_batches] in *. cbn zeta.
+  cbn [hstep step]. rewrite E.
+  assert (U : user_op (iter_op ko p d lim) = true) by (destruct ko; reflexivity). rewrite U.
+  rewrite exec_spec. unfold after_snapshot. cbn [w_st w_views w_batches]. rewrite C.
+  destruct ko; cbn [iter_op core]; destruct d; try congruence; cbn [delivered ndeliv flushes_of is_flush mutating andb];
+    unfold consumed; rewrite ?map_length, Nat.add_0_r;
+    match goal with |- (let '(w2, xs) := ?X in _) = _ => rewrite (surjective_pairing X) end; reflexivity.
+Qed.
+
+(* in particular the delivered list does not depend on what the consumer does *)
+Corollary iterate_reentrant_delivery_independent : forall w v ko p d lim script,
+  hd OBadHandle (snd (hstep w (HIterRe v ko p d lim script))) = snd (step w (OpKV v (iter_op ko p d lim))).
+Proof.
+  intros. cbn [hstep]. destruct (step w (OpKV v (iter_op ko p d lim))) as [w1 res].
+  destruct (run w1 (consumer_ops (ndeliv res) script)) as [w2 xs]. reflexivity.
+Qed.
+
+(* on a closed store / with an invalid direction the consumer is never called: nothing of the script runs *)
+Theorem iterate_reentrant_no_callbacks : forall w v vw ko p d lim script,
+  nth_error (w_views w) v = Some vw -> closed (w_st w) = true \/ d = DBad ->
+  hstep w (HIterRe v ko p d lim script) =
+    (after_snapshot w vw (iter_op ko p d lim), [if closed (w_st w) then OClosed else OPanic]).
+Proof.
+  intros [s vs bs] v vw ko p d lim script E H. cbn [w_st w_views w_batches] in *.
+  cbn [hstep step]. rewrite E.
+  assert (U : user_op (iter_op ko p d lim) = true) by (destruct ko; reflexivity). rewrite U.
+  rewrite exec_spec. unfold after_snapshot. cbn [w_st w_views w_batches].
+  destruct (closed s) eqn:C.
+  - destruct ko; cbn [iter_op core ndeliv consumer_ops firstn concat run flushes_of is_flush mutating andb];
+      rewrite Nat.add_0_r; reflexivity.
+  - destruct H as [H|H]; [discriminate|]. subst d.
+    destruct ko; cbn [iter_op core ndeliv consumer_ops firstn concat run flushes_of is_flush mutating andb];
+      rewrite Nat.add_0_r; reflexivity.
+Qed.
